@@ -1214,6 +1214,11 @@ func jenc(m *gpbft.GMessage) string {
 // two-stage vs one-shot on the same input
 func (w *world) opTwoStage(p *pmR, p1, p2 gpbft.Instant) {
 	x := w.chains[p.x]
+	// one in eight: the completion fills in the vote value only (justification value left as it arrived)
+	complete, kind := pmsg.VerifComplete, "t"
+	if w.rng.Intn(8) == 0 {
+		complete, kind = pmsg.VerifCompleteValueOnly, "tt"
+	}
 	// (1) partial stage, warm + fresh
 	w.setWarm(p1)
 	pmw := w.buildPartial(p)
@@ -1234,24 +1239,24 @@ func (w *world) opTwoStage(p *pmR, p1, p2 gpbft.Instant) {
 	if pvf == nil {
 		pvf = gpbft.VerifWrapPartiallyValidated(pmf)
 	}
-	pmsg.VerifComplete(pvw.PartialMessage(), x)
-	pmsg.VerifComplete(pvf.PartialMessage(), x)
+	complete(pvw.PartialMessage(), x)
+	complete(pvf.PartialMessage(), x)
 	w.setWarm(p2)
 	gpbft.VerifSetProgress(f1, p2.ID, p2.Round, p2.Phase)
 	fw := guard(func() error { _, err := w.warm.FullyValidateMessage(ctx, pvw); return err })
 	ff := guard(func() error { _, err := f1.FullyValidateMessage(ctx, pvf); return err })
 	// (3) one-shot validation of the completed message (fresh copy, completed the same way)
 	cw := w.buildPartial(p)
-	pmsg.VerifComplete(cw, x)
+	complete(cw, x)
 	cjv, encC, encJC := jvalue(w, cw.GMessage), encOK(cw.GMessage), jenc(cw.GMessage)
 	ow := guard(func() error { _, err := w.warm.ValidateMessage(ctx, cw.GMessage); return err })
 	cmO, cj0O, cj1O := w.peeks(false, cw.GMessage, cw.GMessage, cw.Vote.Value.Key())
 	cf := w.buildPartial(p)
-	pmsg.VerifComplete(cf, x)
+	complete(cf, x)
 	f2 := w.fresh(p2)
 	of := guard(func() error { _, err := f2.ValidateMessage(ctx, cf.GMessage); return err })
-	w.out.Line("t %s %s %s %s %s %s %s %s => %s %s %s %s %s %s %s %s %s %s %s %s %s %s",
-		progStr(p1), progStr(p2), desc, keyDesc, w.descChain(x), cjv, encC, encJC,
+	w.out.Line("%s %s %s %s %s %s %s %s %s => %s %s %s %s %s %s %s %s %s %s %s %s %s %s",
+		kind, progStr(p1), progStr(p2), desc, keyDesc, w.descChain(x), cjv, encC, encJC,
 		pw, pf, fw, ff, ow, of, cmP, cj0P, cj1P, shapeP, cmO, cj0O, cj1O, gpbft.VerifCacheShape(w.warm))
 }
 
